@@ -28,12 +28,59 @@ def _sig(fn):
     return '(%s) -> %s' % (', '.join(ty_str(strip_regions(t)) for t in (fn.get('inputs') or [])), ty_str(strip_regions(fn.get('output'))) if fn.get('output') else '?')
 
 
+def _adt_shape(a):
+    from .mir import ty_str, strip_regions
+    return [[ty_str(strip_regions(fl['ty'])) for fl in v['fields']] for v in a['variants']]
+
+
+def undo_adt_renames(facts, baseline):
+    """Renamed private types and fields. A reference ADT that is missing while exactly one unknown, non-exported ADT of
+    the same module has the same variants/field types has been renamed: every occurrence of the new path is rewritten
+    to the old one (types, impl headers, printed function paths). An ADT whose fields kept their types and order
+    but changed names gets the reference field names back. Returns the (new, old) pairs."""
+    import re
+    badts = baseline.get('__adts__') or {}
+    if not badts:
+        return facts, []
+    cur = {a['path']: a for a in facts['adts']}
+    done = []
+    missing = [p for p in badts if p not in cur]
+    unknown = [a for a in facts['adts'] if a['path'] not in badts and not a.get('exported')]
+    text = None
+    for m in missing:
+        mod = m.rsplit('::', 1)[0]
+        shape = [[t for _, t in v] for v in badts[m]]
+        cands = [a for a in unknown if a['path'].rsplit('::', 1)[0] == mod and _adt_shape(a) == shape]
+        others = [x for x in missing if x != m and x.rsplit('::', 1)[0] == mod and [[t for _, t in v] for v in badts[x]] == shape]
+        if len(cands) != 1 or others:
+            continue
+        new = cands[0]['path']
+        unknown.remove(cands[0])
+        if text is None:
+            text = json.dumps(facts)
+        for a_, b_ in ((new, m), (new.rsplit('::', 1)[1], m.rsplit('::', 1)[1])):
+            text = re.sub(r'(?<![A-Za-z0-9_])' + re.escape(a_) + r'(?![A-Za-z0-9_])', b_, text)
+        done.append((new, m))
+    if text is not None:
+        facts = json.loads(text)
+    for a in facts['adts']:
+        ref = badts.get(a['path'])
+        if ref and len(ref) == len(a['variants']):
+            for v, rv in zip(a['variants'], ref):
+                if len(v['fields']) == len(rv) and [n for n, _ in rv] != [fl['name'] for fl in v['fields']] and _adt_shape({'variants': [v]})[0] == [t for _, t in rv]:
+                    for fl, (n, _) in zip(v['fields'], rv):
+                        if fl['name'] != n:
+                            done.append((a['path'] + '.' + fl['name'], a['path'] + '.' + n))
+                            fl['name'] = n
+    return facts, done
+
+
 def undo_renames(facts, baseline):
     """A private function of the reference tree that is missing now, while exactly one unknown function with the same
     signature exists in the same module (or impl), has been *renamed*: give it its old name back (definition and
     call sites), so that the rules that anchor on it still find it. Returns [(new path, old path)]."""
     cur = {f['path'] for f in facts['fns']}
-    missing = [p for p in baseline if p not in cur and baseline[p]]
+    missing = [p for p in baseline if p != '__adts__' and p not in cur and baseline[p]]
     if not missing:
         return []
     unknown = [f for f in facts['fns'] if f['kind'] != 'Closure' and '{closure' not in f['dp'] and f['path'] not in baseline]
@@ -194,6 +241,7 @@ def inline_unknown(facts, baseline=None):
         baseline = load_baseline()
     if not baseline:
         return facts, []
+    facts, _adt_done = undo_adt_renames(facts, baseline)
     undo_renames(facts, baseline)
     fns = {f['dp']: f for f in facts['fns']}
     # identity = printed path (stable under reordering of impl blocks), not the numbered def path
